@@ -15,7 +15,8 @@ Inductive tval : Type :=
 | TNone | TBool (b : bool) | TInt (z : Z) | TBig (z : Z) | TFloat (bits : N)
 | TStr (s : bytes) | TBStr (s : bytes) | TBytes (s : bytes) | TBArr (s : bytes)
 | TList (l : list tval) | TTuple (l : list tval)
-| TClass (m n : bytes) | TCall (m n : bytes) (l : list tval) | TRef (p : tval).
+| TClass (m n : bytes) | TCall (m n : bytes) (l : list tval) | TRef (p : tval)
+| TUser (tag : N).   (* an application object returned by PersistentLoad *)
 
 Fixpoint erase (v : val) : option tval :=
   match v with
@@ -33,6 +34,7 @@ Fixpoint erase (v : val) : option tval :=
   | VClass m n => Some (TClass m n)
   | VCall m n l => option_map (TCall m n) (map_opt erase l)
   | VRef p => option_map TRef (erase p)
+  | VUser t => Some (TUser t)
   | _ => None
   end.
 
@@ -53,6 +55,7 @@ Fixpoint unerase (t : tval) : val :=
   | TClass m n => VClass m n
   | TCall m n l => VCall m n (map unerase l)
   | TRef p => VRef (unerase p)
+  | TUser t => VUser t
   end.
 
 (* ---- the normal form ------------------------------------------------------------------------------- *)
@@ -95,8 +98,14 @@ Section Norm.
   Definition barr_ok (s : bytes) : bool :=
     if (5 <=? e_proto c)%Z then Nlen s <? 2 ^ 63 else bytes_ok s.
 
-  Definition norm_ref (pid : option tval) : option tval :=
-    if (1 <=? e_proto c)%Z then option_map TRef pid else None.
+  (* a persistent reference: from protocol 1 the id is any value (BINPERSID); at protocol 0 only a
+     single-line string id has a form (P<id>\n, read back as a string) *)
+  Definition norm_ref (pid : rval) (tp : option tval) : option tval :=
+    if (1 <=? e_proto c)%Z then option_map TRef tp
+    else match pid with
+         | RStr SPlain s => if has_lf s || negb (e_proto c =? 0)%Z then None else Some (TRef (TStr s))
+         | _ => None
+         end.
 
   (* None = outside the fragment the theorem covers (not: an error) *)
   Fixpoint norm (v : rval) : option tval :=
@@ -116,11 +125,11 @@ Section Norm.
     | RClass m n => if class_ok m n then Some (TClass m n) else None
     | RCall m n l =>
         if class_ok m n && plain_classb m n then option_map (TCall m n) (map_opt norm l) else None
-    | RRef pid => norm_ref (norm pid)
+    | RRef pid => norm_ref pid (norm pid)
     | RBig z => Some (TBig z)
     | RPtr to_struct ref x =>
         match to_struct, ref with
-        | true, Some pid => norm_ref (norm pid)
+        | true, Some pid => norm_ref pid (norm pid)
         | _, _ => norm x
         end
     | _ => None
@@ -165,7 +174,8 @@ Fixpoint fits (c : econfig) (t : tval) : bool :=
   | TTuple l => forallb (fits c) l
   | TClass m n => class_ok c m n
   | TCall m n l => class_ok c m n && plain_classb m n && forallb (fits c) l
-  | TRef p => (1 <=? e_proto c)%Z && fits c p
+  | TRef p => if (1 <=? e_proto c)%Z then fits c p else match p with TStr s => negb (has_lf s || negb (e_proto c =? 0)%Z) | _ => false end
+  | TUser _ => false
   end.
 
 (* fits without the two conditions every decoded value meets by typing (C16): ints are int64 and
@@ -182,5 +192,48 @@ Fixpoint fits_proto (c : econfig) (t : tval) : bool :=
   | TTuple l => forallb (fits_proto c) l
   | TClass m n => class_ok c m n
   | TCall m n l => class_ok c m n && plain_classb m n && forallb (fits_proto c) l
-  | TRef p => (1 <=? e_proto c)%Z && fits_proto c p
+  | TRef p => if (1 <=? e_proto c)%Z then fits_proto c p else match p with TStr s => negb (has_lf s || negb (e_proto c =? 0)%Z) | _ => false end
+  | TUser _ => false
+  end.
+
+(* ---- PersistentLoad hooks (C18) -------------------------------------------------------------------- *)
+
+(* what a PersistentLoad hook does to the value that would otherwise be Ref{id}: described on
+   identity-free values by g.  Without a hook g = TRef; with a hook f it must return an object for
+   every id, with content g (content of id) - e.g. the inverse of the encoder's PersistentRef *)
+Definition hook_spec (load : option (N -> val -> load_result)) (g : tval -> tval) : Prop :=
+  match load with
+  | None => forall t, g t = TRef t
+  | Some f => forall idx p t, erase p = Some t ->
+                (f idx p = LNil /\ g t = TRef t) \/ (exists o, f idx p = LObj o /\ erase o = Some (g t))
+  end.
+
+
+(* the content Decode returns for a value whose hook-free content is t: every Ref replaced by what
+   the hook makes of it, innermost first *)
+Fixpoint hmap (g : tval -> tval) (t : tval) : tval :=
+  match t with
+  | TList l => TList (map (hmap g) l)
+  | TTuple l => TTuple (map (hmap g) l)
+  | TCall m n l => TCall m n (map (hmap g) l)
+  | TRef p => g (hmap g p)
+  | _ => t
+  end.
+
+(* the hook the harness installs in the implementation and in the extracted model for the
+   inverse-hooks runs: an application object registry keyed by string ids and tuple ids (the tag
+   is a function of the id only - that is what "PersistentLoad inverts PersistentRef" needs);
+   other ids are kept as Refs *)
+Definition tag_of_string (s : bytes) : N := fold_left (fun a b => (a * 31 + b2N b) mod 1000003) s 0.
+Definition inv_load (idx : N) (p : val) : load_result :=
+  match p with
+  | VStr s => LObj (VUser (tag_of_string s))
+  | VTuple l => LObj (VUser (2000000 + Nlen l))
+  | _ => LNil
+  end.
+Definition inv_g (t : tval) : tval :=
+  match t with
+  | TStr s => TUser (tag_of_string s)
+  | TTuple l => TUser (2000000 + Nlen l)
+  | _ => TRef t
   end.
